@@ -1,5 +1,5 @@
 # replay of a bounded stand-in violation (C13): re-run native/c13_tdm.py
 import sys
-print('space_unroll N=2 T=4: 4 modes, expected timebins + concurrent - 1 = 5')
+print('delays=[1, 2], leading identity bins per loop=[2, 1]: get_crop_value() = 2, in the hand-written loop the first 1 detected pulses are vacuum and pulse 1 carries light')
 print('REPLAY-VIOLATION')
 sys.exit(1)
